@@ -192,6 +192,41 @@ func C03Catalogue() []CatCase {
 		add("primary/"+name+"/cmp-left", func(g *gen.G) gen.X { return selWhere(g, g.Bin("=", b(g), g.Int("1"))) })
 		add("primary/"+name+"/cmp-right", func(g *gen.G) gen.X { return selWhere(g, g.Bin("=", g.Ident("b"), b(g))) })
 	}
+	// 5b. wide (flat, not nested) statements: width is not depth, so none of them may be refused or cut short
+	for _, n := range []int{60, 150, 400} {
+		n := n
+		add(fmt.Sprintf("wide/in-list-signed/%d", n), func(g *gen.G) gen.X {
+			var xs []gen.X
+			for k := 0; k < n; k++ {
+				xs = append(xs, g.Neg(g.Int(fmt.Sprint(k+1)), k%3 == 0))
+			}
+			return selWhere(g, g.InList(g.Ident("a"), false, xs))
+		})
+		add(fmt.Sprintf("wide/select-list-signed-and-calls/%d", n), func(g *gen.G) gen.X {
+			var cols []gen.SelCol
+			for k := 0; k < n; k++ {
+				switch k % 3 {
+				case 0:
+					cols = append(cols, gen.SelCol{E: g.Neg(g.Ident("a"), false)})
+				case 1:
+					cols = append(cols, gen.SelCol{E: g.Call("f", []gen.X{g.Neg(g.Int("2"), false)}, gen.CallOpts{})})
+				default:
+					cols = append(cols, gen.SelCol{E: g.Bin("<", g.Ident("b"), g.Neg(g.Int("1"), false))})
+				}
+			}
+			return g.Select(&gen.SelectSpec{Cols: cols, From: []gen.TableRef{{Name: "t"}}})
+		})
+		if n > 90 {
+			continue // a chain is left-deep: under the parenthesising render policies its depth is its length
+		}
+		add(fmt.Sprintf("wide/and-chain-signed/%d", n), func(g *gen.G) gen.X {
+			c := g.Bin("<", g.Ident("a"), g.Neg(g.Int("1"), false))
+			for k := 1; k < n; k++ {
+				c = g.Bin("AND", c, g.Bin(">", g.Ident("b"), g.Neg(g.Int(fmt.Sprint(k)), false)))
+			}
+			return selWhere(g, c)
+		})
+	}
 	// 6. frame bounds: every (start, end) pair that the standard allows, plus single bounds
 	for _, ft := range []string{"ROWS", "RANGE"} {
 		for sk := 0; sk <= 3; sk++ {
